@@ -17,7 +17,7 @@
   is a key of the JSON object of POST /allocations and /reshaper, so it occurs once).
   Helper lemmas: `Placement.Lemmas.{ConsIff,ConsAttr}` (one lemma per handler).
 -/
-import Placement.Lemmas.ConsAttr
+import Placement.Lemmas.ConsAttrPost
 import Placement.Lemmas.WfExample
 
 namespace Placement.Props.C12
@@ -85,6 +85,31 @@ theorem later_write_updates_consumer {cfg : Config} {db db' : DB R} (hU : Uniq d
   refine ⟨e1, e2, e3.trans ?_⟩
   unfold typeAfterPut
   rw [hold]; rfl
+
+/-- the same for every consumer entry of a successful POST /allocations: project and user as requested
+(placeholders when none is named), type as requested from 1.38, else what the record had
+(`typeAfterPut`: `none` for a consumer that did not exist) -/
+theorem post_sets_attributes {cfg : Config} {db db' : DB R} (hU : Uniq db) (hR : RI db) (hP : AllocPos db)
+    {mv : Nat} {cs : List ConsumerReq} {r : Resp} (hwf : OpWF (.allocPost mv cs : Op R))
+    (h : step cfg db (.allocPost mv cs) = (db', r)) (hs : r.status = 204) :
+    ∀ c ∈ cs, ∀ row ∈ db'.consumers, row.uuid = c.uuid →
+      row.project = reqProject cfg c ∧ row.user = reqUser cfg c ∧
+      row.ctype = (match reqType mv c with
+                   | some t => some t
+                   | none => (db.consByUuid c.uuid).bind (·.ctype)) :=
+  post_attrs (wfi_of hU hR hP) hwf h hs
+
+/-- ... and of a successful POST /reshaper -/
+theorem reshape_sets_attributes {cfg : Config} {db db' : DB R} (hU : Uniq db) (hR : RI db) (hP : AllocPos db)
+    {mv : Nat} {invs : List (RpInvReq R)} {cs : List ConsumerReq} {r : Resp}
+    (hwf : OpWF (.reshape mv invs cs : Op R))
+    (h : step cfg db (.reshape mv invs cs) = (db', r)) (hs : r.status = 204) :
+    ∀ c ∈ cs, ∀ row ∈ db'.consumers, row.uuid = c.uuid →
+      row.project = reqProject cfg c ∧ row.user = reqUser cfg c ∧
+      row.ctype = (match reqType mv c with
+                   | some t => some t
+                   | none => (db.consByUuid c.uuid).bind (·.ctype)) :=
+  reshape_attrs (wfi_of hU hR hP) hwf h hs
 
 /-! ## removal, and re-creation with `consumer_generation: null` -/
 
@@ -183,5 +208,40 @@ example : (step exCfg exDb (.allocPut 28 exBad)).2 = r400 := by decide
 example : (step exCfg exDb (.allocPut 28 exBad)).1.consByUuid 502 = none :=
   (recreate_after_rejected_first_write (cfg := exCfg) (mv := 28) uniq_exDb ri_exDb allocPos_exDb consIff_exDb (c := exBad) (by decide)
     (by decide) (by decide) 28 { exFirst with uuid := 502 } rfl rfl).1
+
+
+example : (step exCfg exDb (.allocPost 38 [exFirst, exLater])).2 = r204 := by decide
+
+example : ∀ row ∈ (step exCfg exDb (.allocPost 38 [exFirst, exLater])).1.consumers, row.uuid = 500 →
+    row.project = 71 ∧ row.user = 81 ∧ row.ctype = none :=
+  post_sets_attributes (cfg := exCfg) (mv := 38) uniq_exDb ri_exDb allocPos_exDb (cs := [exFirst, exLater])
+    (by decide) rfl (by decide) exLater (by simp)
+
+/-- a reshape that moves the 2 units of consumer 500 from provider 101 to provider 102 (new inventory of
+class 0 there), naming a new project for the consumer -/
+def exReshapeInvs : List (RpInvReq Nat) :=
+  [{ uuid := 102, gen := 1, invs := [{ rcName := 0, total := 4, reserved := 0, minUnit := 1, maxUnit := 4,
+                                         stepSize := 1, ratio := 1 }] }]
+
+def exMoved : ConsumerReq :=
+  { uuid := 500, project := some 72, user := some 8, ctype := some 90, gen := some 1, allocs := [(102, 0, 2)] }
+
+example : (step exCfg exDb (.reshape 38 exReshapeInvs [exMoved])).2 = r204 := by decide
+
+example : ∀ row ∈ (step exCfg exDb (.reshape 38 exReshapeInvs [exMoved])).1.consumers, row.uuid = 500 →
+    row.project = 72 ∧ row.user = 8 ∧ row.ctype = some 90 :=
+  reshape_sets_attributes (cfg := exCfg) (mv := 38) uniq_exDb ri_exDb allocPos_exDb (invs := exReshapeInvs)
+    (cs := [exMoved])
+    (by decide) rfl (by decide) exMoved (by simp)
+
+
+/-- removal by a reshape whose entry for consumer 500 is empty, and by an empty POST entry -/
+example : (step exCfg exDb (.reshape 38 [] [exEmpty])).1.consByUuid 500 = none :=
+  (recreate_after_removal (cfg := exCfg) uniq_exDb ri_exDb allocPos_exDb consIff_exDb (.reshape 38 [] [exEmpty])
+    (by decide) (by decide) 38 { exFirst with uuid := 500 } rfl rfl).1
+
+example : (step exCfg exDb (.allocPost 28 [exEmpty])).1.consByUuid 500 = none :=
+  (recreate_after_removal (cfg := exCfg) uniq_exDb ri_exDb allocPos_exDb consIff_exDb (.allocPost 28 [exEmpty])
+    (by decide) (by decide) 38 { exFirst with uuid := 500 } rfl rfl).1
 
 end Placement.Props.C12
